@@ -194,6 +194,7 @@ class Check:
                  if k.get('property') == self.pid and k.get('status') == 'known']
         n_ob = n_ok = n_unk = n_triv = n_cex = 0
         twins_total = twins_sat = 0
+        soft_total = soft_sat = n_vacuous = 0
         samples = []
         distinct = set()
         violations = []       # reproduced, not known
@@ -217,7 +218,19 @@ class Check:
             budget_cut += s['budget_cut']
             for k, m in s['aborted']:
                 aborted.append('%s: %s: %s' % (s['name'], k, m))
+            # soft twins ('twin?:'): reachability witnesses on paths whose feasibility was over-approximated; a path whose
+            # soft twin is unsat is infeasible: everything stated on it is vacuous and is not counted as discharged
+            vac = {o.get('pcsig') for o in s['outcomes'] if o['name'].startswith('twin?:') and o['status'] == 'ok'}
+            soft = [o for o in s['outcomes'] if o['name'].startswith('twin?:')]
+            if soft:
+                soft_total += len(soft)
+                soft_sat += sum(1 for o in soft if o['status'] == 'cex')
             for o in s['outcomes']:
+                if o['name'].startswith('twin?:'):
+                    continue
+                if o.get('pcsig') in vac:
+                    n_vacuous += 1
+                    continue
                 if o['name'].startswith('lemma:'):
                     # auxiliary lemma candidates for lemma chains: a failing candidate is not a violation
                     lemmas[o['status']] = lemmas.get(o['status'], 0) + 1
@@ -313,6 +326,8 @@ class Check:
                 'paths_aborted_list': aborted[:20],
                 'paths_budget_cut': budget_cut,
                 'vacuity_twins': {'total': twins_total, 'sat_as_expected': twins_sat},
+                'path_reachability_twins': {'total': soft_total, 'sat': soft_sat,
+                                            'obligations_on_infeasible_paths_not_counted': n_vacuous},
                 'lemma_candidates': lemmas,
                 'shim_validation_runs': self.validations,
                 'concrete_side_checks': [{'name': n, 'ok': ok, 'detail': d} for n, ok, d in self.concrete][:60],
